@@ -6,6 +6,7 @@ import Driver.RwDrv
 import Driver.SndDrv
 import Driver.SharedDrv
 import Driver.AffDrv
+import Driver.CVDrv
 /-! `driver <model>`: reads harness output (cases) on stdin, prints one verdict line per case. -/
 open Driver
 
@@ -18,6 +19,7 @@ def dispatch (model : String) (c : Case) : String :=
   | "snd" => SndDrv.runCase c
   | "shared" => SharedDrv.runCase c
   | "aff" => AffDrv.runCase c
+  | "cv" => CVDrv.runCase c
   | _ => s!"case {c.id} reject 0 unknown-model-{model}"
 
 def main (args : List String) : IO UInt32 := do
